@@ -145,7 +145,8 @@ pub fn location_violations(o: &Outcome, files: &BTreeMap<String, Vec<u8>>) -> Ve
     let mut v = vec![];
     let text = o.stderr_str();
     let mut cur: Option<(String, Vec<String>)> = None; // (display name, lines)
-    let expand = |l: &str| l.replace('\t', "    ");
+    // the renderer expands tabs to tab stops; compare with every run of blanks collapsed to one space
+    let expand = |l: &str| l.split(|c| c == ' ' || c == '\t').filter(|w| !w.is_empty()).collect::<Vec<_>>().join(" ");
     for line in text.lines() {
         let t = line.trim_start();
         if let Some(rest) = t.strip_prefix("┌─ ") {
